@@ -974,11 +974,9 @@ where
 		wallet_lock!(wallet_inst, w);
 		let acct_paths: Vec<Identifier> = w.acct_path_iter().map(|m| m.path).collect();
 		for parent_key_id in acct_paths {
-			if let Err(Error::InvalidKeychainMask) =
-				updater::refresh_outputs(&mut **w, keychain_mask, &parent_key_id, true)
-			{
-				return Err(Error::InvalidKeychainMask);
-			}
+			// a scan that could not bring the outputs up to date must not go on and
+			// report success on what it has
+			updater::refresh_outputs(&mut **w, keychain_mask, &parent_key_id, true)?;
 		}
 	}
 	let tip = {
